@@ -466,6 +466,36 @@ pub fn gen_targets(t: &mut Tape) -> Scenario {
         (crate::corpus::WIT_PACKAGES_2[1].2, &[], &["test:plain"]),
         (crate::corpus::WIT_PACKAGES_2[2].2, &["nav-world"], &["test:nav", "test:navimpl", "test:conflict"]),
     ];
+    // one scenario in six: a WIT directory whose world refers to a package under its `deps/`
+    if t.chance(1, 6) {
+        tree.file("wit/main.wit", crate::corpus::DEMO_MAIN_WIT.as_bytes().to_vec());
+        tree.file("wit/deps/types/api.wit", crate::corpus::DEMO_TYPES_WIT.as_bytes().to_vec());
+        let name = *t.pick(&["test:deps-user", "test:deps-user", "test:plain", "test:leaf-a"]);
+        let ci = lib.iter().position(|p| p.name == name).unwrap_or(comps[0]);
+        tree.file("comp.wasm", lib[ci].bytes.clone());
+        let world = match t.draw(4) {
+            0 => None,
+            1 => Some("other".to_string()),
+            _ => Some("w".to_string()),
+        };
+        let mut faults = Vec::new();
+        if t.chance(1, 5) {
+            if let Some(f) = apply_fault(t, &mut tree, DEP_FAULTS, None) {
+                faults.push(f);
+            }
+        }
+        return Scenario {
+            tree,
+            stdout_full: false,
+            cmd: Cmd::Targets(TargetsCase {
+                component: "comp.wasm".into(),
+                wit: "wit".into(),
+                world,
+            }),
+            faults,
+            label: format!("targets (wit dir with deps) comp={}", lib[ci].name),
+        };
+    }
     let (text, worlds, near) = choices[t.index(choices.len())];
     let ci = if t.chance(3, 4) {
         let name = near[t.index(near.len())];
